@@ -175,6 +175,25 @@ def r14b(R):
         R.check(sw, '%s: time, duration <- %s' % (test_text, want[toward_raw].split('.')[1]),
                 ok, 'when %s the time and duration registers must both be '
                 'rewritten with %s (found %s)' % (test_text, want[toward_raw], regs))
+    # the time/duration rewrite depends on nothing but the two raw tests
+    allowed_conds = ('from_mode is to_mode', 'to_mode is from_mode',
+                     'from_mode == to_mode', 'to_mode == from_mode',
+                     'to_mode is UnitMode.RAW', 'to_mode == UnitMode.RAW',
+                     'from_mode is UnitMode.RAW', 'from_mode == UnitMode.RAW')
+    tstores = [n for n in cfg.nodes if n.kind == 'stmt' and isinstance(n.ast, ast.Assign)
+               and norm(n.ast.targets[0]) in ('self._reg.duration', 'self._reg.time')]
+    extra = set()
+    for st in tstores:
+        for c in cfg.nodes:
+            if c.kind != 'cond' or norm(c.ast) in allowed_conds:
+                continue
+            for lab in (True, False):
+                if st.id not in reachable_without_edges(cfg, cfg.entry, {(c.id, lab)}):
+                    extra.add(norm(c.ast))
+    R.check(sw, 'time/duration rewrite depends only on the raw tests', not extra,
+            'the time/duration rewrite is additionally conditioned on %s: some '
+            'transition that involves raw units no longer converts them'
+            % ', '.join(sorted(extra)))
     # nothing else writes time/duration here
     other = [n for n in cfg.nodes if n.kind == 'stmt' and isinstance(n.ast, ast.Assign)
              and norm(n.ast.targets[0]) in ('self._reg.duration', 'self._reg.time')]
